@@ -181,6 +181,17 @@ def run(ctx):
         e0 = np.linalg.eigvalsh(of.get_sparse_operator(t).toarray()); e1 = np.linalg.eigvalsh(of.get_sparse_operator(r).toarray())
         ctx.count('rotate_spectrum_numeric', 1, nontrivial_key=repr(sp0))
         if not np.allclose(e0, e1, atol=1e-8): ctx.violation('C08 rotate_basis changes the spectrum', {'U': repr(U.tolist()), 'one_body': repr(one.tolist())})
+    # general PolynomialTensor keys (annihilators before creators, mixed orders) under complex rotations
+    for i in range(N(40, 300)):
+        n = 2
+        pool = [(0, 1), (1, 0), (1, 1), (0, 0), (1, 0, 1, 0), (0, 1, 1, 0), (1, 0, 0, 1), (0, 1, 0, 1), (1, 1, 0, 0), (0, 0, 1, 1), (1, 0, 0), (0, 1, 1)]
+        ks = rng.sample(pool, rng.choice([1, 1, 2]))
+        t = of.PolynomialTensor(rand_tensor(rng, n, ks))
+        U = rational_unitary(rng, n)
+        r = copy.deepcopy(t); r.rotate_basis(U)
+        sp0, sp1 = spec_poly(t.n_body_tensors), spec_poly(r.n_body_tensors)
+        add('rotate_basis_general_keys', '(fermi_close %s %s (subst_op %s %s %s))' % (cQ(Fraction(1, 10 ** 20)), coq_fop_terms(sp1), cmat(U.tolist()), cnat(n), coq_fop_terms(sp0)),
+            {'call': 'PolynomialTensor.rotate_basis', 'keys': [list(k) for k in ks], 'U': repr(U.tolist()), 'tensors': repr({k: np.asarray(v).tolist() for k, v in t.n_body_tensors.items()})}, key=(repr(U.tolist()), repr(sp0)))
     # ---- DOCIHamiltonian from integrals: the pair-qubit operator equals the molecular Hamiltonian (and
     #      the stored parent tensors) restricted to doubly occupied configurations
     from openfermion.chem.molecular_data import spinorb_from_spatial
